@@ -322,7 +322,7 @@ func (h *harness) genCase(r *rng, name, stream string, nops int) *Case {
 		for i := 0; i < 6; i++ {
 			c.Pool = append(c.Pool, []byte(fmt.Sprintf("s%d", i)))
 		}
-		c16vals := []int{0, 0, 1, 2, 490, 500, 502, 511, 512, 513, 1000, 4070, 4086, 4096, 4097, 10000}
+		c16vals := []int{0, 0, 1, 2, 490, 500, 502, 511, 512, 513, 1000, 4070, 4086, 4096, 4097, 10000, 65535, 65536, 70001, 140000}
 		keyf := func() []byte { return c.Pool[r.intn(len(c.Pool))] }
 		for i := 0; i < nops; i++ {
 			switch r.pick(40, 12, 20, 8, 3, 3, 6, 5, 3) {
@@ -700,6 +700,11 @@ func (h *harness) genCase(r *rng, name, stream string, nops int) *Case {
 			n = 100 + r.intn(500)
 		case 4:
 			n = r.intn(maxVal + 1)
+		}
+		if (h.prop == "C18" || h.prop == "C16" || h.prop == "C03") && r.chance(2) {
+			// large values (separate code paths for big records: >= 64 KiB)
+			h.stat("gen.largevalue")
+			return patternBytes(65536+r.intn(70000), byte(r.next()))
 		}
 		if oversize && r.chance(6) {
 			// just beyond what an empty segment holds
